@@ -102,6 +102,10 @@ func (v *VM) exec() {
 		case codeNegate:
 			v.stack[len(v.stack)-1] = v.stack[len(v.stack)-1].opMul(newUntypedInt(-1))
 		case codeBitComplement:
+			if c := v.stack[len(v.stack)-1]; c.t == untypedInt { // ^k of an untyped constant stays untyped
+				v.stack[len(v.stack)-1] = newUntypedInt(^int(c.num))
+				break
+			}
 			a := v.stack[len(v.stack)-1].assign(TypeNil)
 			b := Uint32(0xffffffff).convert(a.t)
 			v.stack[len(v.stack)-1] = a.opBitXor(b)
